@@ -381,13 +381,21 @@ def overtake_runs(ctx, stats):
         raise RuntimeError("harness build failed: " + msg)
     fails, mism = [], []
     for kind in ("concurrent", "serial"):
-        r = common.run([exe, kind], timeout=120)
-        m = re.search(r"OVERTAKE (\w+) o_held=(\d) u_held=(\d) idle=(\d+) state_locked=(\d+) state_after_x2=(\d+) state_before_sync=(\d+) "
-                      r"b_ran=(\d) b_ran_before_x2=(\d)", r.stdout)
+        pat = (r"OVERTAKE (\w+) o_held=(\d) u_held=(\d) idle=(\d+) state_locked=(\d+) state_after_x2=(\d+) state_before_sync=(\d+) "
+               r"b_ran=(\d) b_ran_before_x2=(\d)")
+        m, r, reached = None, None, False
+        for attempt in range(5):        # the schedule is forced with holds inside the hook; give a busy machine several tries
+            r = common.run([exe, kind], timeout=300)
+            m = re.search(pat, r.stdout)
+            reached = bool(m) and r.returncode == 0 and m.group(2) == "1" and m.group(3) == "1" and m.group(4) == m.group(7)
+            if reached or (m and m.group(9) == "1"):
+                break
         if r.returncode != 0 or not m:
             mism.append({"what": "overtake witness did not run", "detail": (r.stdout + r.stderr)[-800:]})
             continue
-        reached = m.group(2) == "1" and m.group(3) == "1" and m.group(4) == m.group(7)
+        if not reached and m.group(9) != "1":
+            mism.append({"what": "overtake witness: the forced schedule (idle word with two items queued) was not established in 5 attempts, "
+                                 "so the fast-path order clause was not exercised in this run", "detail": r.stdout[-400:]})
         stats["overtake_%s_schedule_reached" % kind] = int(reached)
         if m.group(8) != "1":
             mism.append({"what": "overtake witness: the sync item never ran", "detail": r.stdout[-400:]})
